@@ -14,6 +14,134 @@ use crate::props::c13::run_rustfmt;
 
 pub struct C06;
 
+const NEWLINE_BODIES: &[&str] = &[
+    "fn  main ( ) {\n    let   x=1 ;\n}\n",
+    "// header\nuse b::c;\nuse a::d;\n\nstruct  S{a:u8}\n",
+    "fn f() {\n    let s = \"multi\n  line\";\n    g( s ) ;\n}\n",
+    "/* block\n   comment */\nmod  m { fn  g ( ) { } }\n",
+];
+
+/// One real file, newline_style from the command line or a configuration file: every mode must
+/// agree on the expected bytes (formatted text with the terminators the style asks for).
+fn run_newline(case: &Value, r: &RunCtx) -> Outcome {
+    let body = case["body"].as_str().unwrap_or("");
+    let style = case["style"].as_str().unwrap_or("Auto");
+    let crlf = case["crlf"].as_bool().unwrap_or(false);
+    let via_file = case["via_file"].as_bool().unwrap_or(false);
+    let w = format_text(body, &vec![]);
+    if !w.clean() {
+        return Outcome::skip("module-does-not-format");
+    }
+    // known class (same defect as KF-C08-1): under Auto the terminators of a CRLF file are
+    // detected on the source map's normalised text, so the modes disagree about such a file
+    let judge_known = case["judge_known"].as_bool().unwrap_or(false);
+    if style == "Auto" && crlf && !judge_known {
+        let mut o = Outcome::pass();
+        o.excluded.push("known-class:auto-crlf-file".into());
+        return o;
+    }
+    let lf_text = if case["formatted"].as_bool().unwrap_or(false) { w.text.clone() } else { body.to_string() };
+    let on_disk = if crlf { lf_text.replace('\n', "\r\n") } else { lf_text.clone() };
+    let want_crlf = match style {
+        "Windows" => true,
+        "Unix" | "Native" => false,
+        _ => crlf,
+    };
+    let want = if want_crlf { w.text.replace('\n', "\r\n") } else { w.text.clone() };
+    let base = r.tmp.join(format!("c06n-{}", r.case_no));
+    let _ = std::fs::remove_dir_all(&base);
+    let fresh = |name: &str| -> std::path::PathBuf {
+        let d = base.join(name);
+        let _ = std::fs::create_dir_all(&d);
+        let _ = std::fs::write(d.join("lib.rs"), &on_disk);
+        if via_file {
+            let _ = std::fs::write(d.join("rustfmt.toml"), format!("newline_style = \"{style}\"\n"));
+        }
+        set_past_mtimes(&d);
+        d
+    };
+    let args = |extra: &[&str]| -> Vec<String> {
+        let mut v: Vec<String> = extra.iter().map(|s| s.to_string()).collect();
+        if !via_file {
+            v.push("--config".into());
+            v.push(format!("newline_style={style}"));
+        }
+        v.push("lib.rs".into());
+        v
+    };
+    let differs = on_disk != want;
+    let mut o = Outcome::pass();
+    o.labels.push(format!("newline:{style}:{}:{}", if crlf { "crlf-file" } else { "lf-file" }, if differs { "differs" } else { "same" }));
+    o.nontrivial = crlf != want_crlf || differs;
+    let fail = |class: &str, msg: String| -> Outcome {
+        let _ = std::fs::remove_dir_all(&base);
+        let class = if style == "Auto" && crlf { format!("auto-crlf-file/{class}") } else { class.to_string() };
+        Outcome::fail(format!("newline:{class}"), format!("{msg}\nnewline_style={style} (via {}), file has {} terminators, formatted code: {}\n--- on disk ---\n{on_disk:?}\n--- expected ---\n{want:?}", if via_file { "rustfmt.toml" } else { "--config" }, if crlf { "CRLF" } else { "LF" }, lf_text == w.text)).nontrivial(true)
+    };
+    macro_rules! run {
+        ($dir:expr, $args:expr) => {
+            match run_rustfmt(r, $dir, $args, None) {
+                Some(x) => x,
+                None => {
+                    let _ = std::fs::remove_dir_all(&base);
+                    return Outcome::skip("cannot-run-rustfmt");
+                }
+            }
+        };
+    }
+    // --check: read-only, exit status tells exactly whether the bytes differ
+    let d = fresh("check");
+    let (code, out, err) = run!(&d, &args(&["--check"]));
+    if std::fs::read(d.join("lib.rs")).ok().as_deref() != Some(on_disk.as_bytes()) {
+        return fail("check-wrote", "--check changed the file".into());
+    }
+    if differs && code != Some(1) {
+        return fail("check-missed-difference", format!("--check exits with {code:?} although the file differs from the bytes rustfmt would write\nstdout: {out}\nstderr: {err}"));
+    }
+    if !differs && (code != Some(0) || !out.is_empty()) {
+        return fail("check-false-difference", format!("--check exits with {code:?} although the file already holds the bytes rustfmt would write\nstdout: {out}\nstderr: {err}"));
+    }
+    // -l lists the file iff it differs
+    let d = fresh("list");
+    let (_c, out, _e) = run!(&d, &args(&["--check", "-l"]));
+    if out.contains("lib.rs") != differs {
+        return fail("list-disagrees", format!("-l prints {out:?}, the file {} differ", if differs { "does" } else { "does not" }));
+    }
+    // --emit stdout prints the expected bytes
+    let d = fresh("stdout");
+    let (_c, out, _e) = run!(&d, &args(&["--emit", "stdout", "--quiet"]));
+    let printed = out.splitn(2, ":\n\n").nth(1).unwrap_or(&out).to_string();
+    if printed != want {
+        return fail("stdout-disagrees", format!("--emit stdout prints {printed:?}"));
+    }
+    // files mode writes exactly the expected bytes (and only then touches the file)
+    let d = fresh("files");
+    let backup = case["backup"].as_bool().unwrap_or(false);
+    let (code, _o, err) = run!(&d, &args(if backup { &["--backup"] } else { &[] }));
+    let after = std::fs::read(d.join("lib.rs")).unwrap_or_default();
+    if code != Some(0) {
+        return fail("files-status", format!("files mode exits with {code:?}: {err}"));
+    }
+    if after != want.as_bytes() {
+        return fail("files-wrong-bytes", format!("files mode left {:?}", String::from_utf8_lossy(&after)));
+    }
+    let bk = d.join("lib.bk");
+    if backup && differs && std::fs::read(&bk).ok().as_deref() != Some(on_disk.as_bytes()) {
+        return fail("backup-missing", "--backup did not keep the original bytes in lib.bk".into());
+    }
+    if (!backup || !differs) && bk.exists() {
+        return fail("backup-unexpected", "a .bk file was written although no backup was due".into());
+    }
+    if !differs {
+        let m = std::fs::metadata(d.join("lib.rs")).and_then(|m| m.modified()).ok();
+        if m != Some(past()) {
+            return fail("files-touched-unchanged", "the file was rewritten although it already held the expected bytes".into());
+        }
+    }
+    let _ = std::fs::remove_dir_all(&base);
+    o
+}
+
 fn past() -> SystemTime {
     SystemTime::UNIX_EPOCH + Duration::from_secs(1_000_000_000)
 }
@@ -116,7 +244,7 @@ impl Property for C06 {
     fn params(&self, tier: Tier) -> Params {
         Params {
             cases: match tier {
-                Tier::Quick => 160,
+                Tier::Quick => 640,
                 Tier::Thorough => 6_000,
             },
             max_bytes: 256,
@@ -127,6 +255,19 @@ impl Property for C06 {
         "generated crate trees in which a random subset of the reachable files is already formatted; the real binary runs on fresh copies (mtimes preset to a fixed past instant) in every mode: --check, --check -l, --emit stdout, --emit json, --emit checkstyle, --emit files, files with -l / --backup / --quiet, standard input for the root, and the histories check;format;check and format;format; oracle: the non-writing modes change no byte and no mtime; files mode rewrites exactly the files whose formatted text differs and leaves the mtime of the others alone; with no error --check exits 1 iff files mode rewrites a file; the stdout sections, the files-mode bytes, the stdin text of the root and the text obtained by applying the json blocks to the original are identical; the checkstyle messages are lines of the formatted text at the stated numbers; -l lists exactly the rewritten files; --backup leaves a .bk with the original for exactly those; after format, check passes and a second format touches nothing; non-trivial = at least one unformatted and one formatted reachable file; distinct by case content"
     }
     fn generate(&self, c: &mut Choices<'_>, _g: &GenCtx) -> Value {
+        if c.chance(1, 4) {
+            // explicit / automatic newline_style against the terminators of a real file
+            let body = *c.pick(NEWLINE_BODIES);
+            return json!({
+                "kind": "newline",
+                "body": body,
+                "formatted": c.chance(2, 3),
+                "crlf": c.flip(),
+                "style": *c.pick(&["Auto", "Unix", "Windows", "Native"]),
+                "via_file": c.flip(),
+                "backup": c.chance(1, 4),
+            });
+        }
         let t = gen_tree(c, &TreeSpace { max_depth: 2, exclusions: false, decoys: true, exotic: false, ..TreeSpace::default() });
         // which reachable files are already formatted
         let n = t.files.len();
@@ -135,6 +276,9 @@ impl Property for C06 {
         json!({"tree": t, "formatted": formatted, "crlf_root": newline})
     }
     fn run(&self, case: &Value, r: &RunCtx) -> Outcome {
+        if case["kind"].as_str() == Some("newline") {
+            return run_newline(case, r);
+        }
         let Ok(mut tree) = serde_json::from_value::<Tree>(case["tree"].clone()) else {
             return Outcome::skip("bad-case");
         };
